@@ -735,3 +735,84 @@ _run_c01_b = run
 def run(ctx):  # noqa: F811
     _run_c01_b(ctx)
     r01_6(ctx, ctx.model)
+
+
+# ---------------------------------------------------------------------------------------------------------------- R01.7
+def r01_7(ctx, m, rid="R01.7"):
+    """merging adjacent block-diagonal factors of a chain keeps the composition order in every block"""
+    C = m.cls(OPS + "chain_operator", "ChainOperator")
+    B = m.cls(OPS + "block_diagonal_operator", "BlockDiagonalOperator")
+    ctx.rule(rid, "ChainOperator.simplify merges adjacent BlockDiagonalOperators as earlier._combine_chain(later) (earlier = applied "
+                  "last) and BlockDiagonalOperator._combine_chain composes block-wise in that order: own block after the argument's "
+                  "block, blocks paired position-wise", floor=2)
+    # call site
+    site = None
+    for fi in C.methods.values():
+        for c in walk_no_nested(fi.node):
+            if isinstance(c, ast.Call) and call_name(c) == "_combine_chain" and isinstance(c.func, ast.Attribute):
+                site = (fi, c)
+    key = f"{C.key}::merge call: receiver is the preceding (outer) factor, argument the following one"
+    if site is None:
+        ctx.und(rid, key, "no _combine_chain call in ChainOperator - merge not performed or renamed", C)
+    else:
+        fi, c = site
+        ctx.saw_func(fi)
+        recv = c.func.value
+        loops = [lp for lp in walk_no_nested(fi.node) if isinstance(lp, ast.For) and any(x is c for x in ast.walk(lp))]
+        ok = None
+        if loops and isinstance(loops[-1].target, ast.Name) and len(c.args) == 1:
+            lv = loops[-1].target.id
+            acc = recv.value if isinstance(recv, ast.Subscript) else None
+            if acc is not None and src(recv.slice) == "-1" and src(c.args[0]) == lv:
+                # accumulator grows by append in iteration order -> [-1] precedes the loop variable
+                app = any(isinstance(z, ast.Call) and call_name(z) == "append" and isinstance(z.func, ast.Attribute) and src(z.func.value) == src(acc)
+                          for z in ast.walk(loops[-1]))
+                ok = True if app else None
+            elif isinstance(recv, ast.Name) and recv.id == lv and isinstance(c.args[0], ast.Subscript) and src(c.args[0].slice) == "-1":
+                ok = False
+        ctx.check(rid, key, ok, f"`{src(c)}`", fi, c)
+    # block-wise order
+    fi = B.methods.get("_combine_chain")
+    key = f"{B.key}._combine_chain::block = own block after the argument's block"
+    if fi is None:
+        ctx.und(rid, key, "method missing", B)
+        return
+    ctx.saw_func(fi)
+    other = fi.params()[1]
+    comps = [n for n in walk_no_nested(fi.node) if isinstance(n, (ast.DictComp, ast.ListComp, ast.GeneratorExp))]
+    verdict, detail = None, "no block-wise comprehension over zip(self._ops, other._ops) recognised"
+    for cp in comps:
+        g = cp.generators[0]
+        if not (isinstance(g.iter, ast.Call) and call_name(g.iter) == "zip" and isinstance(g.target, ast.Tuple) and len(g.target.elts) == len(g.iter.args)):
+            continue
+        role = {}
+        for t, a in zip(g.target.elts, g.iter.args):
+            if isinstance(t, ast.Name):
+                if src(a) == "self._ops":
+                    role[t.id] = "S"
+                elif src(a) == f"{other}._ops":
+                    role[t.id] = "O"
+        if set(role.values()) != {"S", "O"}:
+            continue
+        v = cp.value if isinstance(cp, ast.DictComp) else cp.elt
+        pair = None
+        if isinstance(v, ast.Call) and isinstance(v.func, ast.Name) and len(v.args) == 1 and isinstance(v.args[0], ast.Name):
+            pair = (v.func.id, v.args[0].id)
+        elif isinstance(v, ast.BinOp) and isinstance(v.op, ast.MatMult) and isinstance(v.left, ast.Name) and isinstance(v.right, ast.Name):
+            pair = (v.left.id, v.right.id)
+        elif isinstance(v, ast.Call) and call_name(v) == "make" and len(v.args) == 1 and isinstance(v.args[0], (ast.List, ast.Tuple)) \
+                and len(v.args[0].elts) == 2 and all(isinstance(z, ast.Name) for z in v.args[0].elts):
+            pair = tuple(z.id for z in v.args[0].elts)
+        if pair and all(p in role for p in pair):
+            r = (role[pair[0]], role[pair[1]])
+            detail = f"`{src(v)}` composes {r[0]}∘{r[1]} (S = own block, O = argument's block)"
+            verdict = r == ("S", "O") if r in (("S", "O"), ("O", "S")) else None
+    ctx.check(rid, key, verdict, detail, fi)
+
+
+_run_c01_c = run
+
+
+def run(ctx):  # noqa: F811
+    _run_c01_c(ctx)
+    r01_7(ctx, ctx.model)
